@@ -516,6 +516,14 @@ def rr_setup(ctx):
     s = reset_setup(ctx)
     o = Obj(PBC, dict(s.self.fields))
     o.fields.update(_obj_model=Opaque("obj_model"), _probe_model=Opaque("probe_model"), _dset=Opaque("dset"))
+    # arbitrary history so far: any number of completed epochs (possibly none - the generators can have been used all the same)
+    n = ctx.fresh("n_iters_so_far", "int")
+    ctx.assume(n.t >= 0)
+    for f in ("_iter_losses", "_iter_val_losses", "_iter_recon_types"):
+        a = ctx.fresh_arr(f, (n,), "real")
+        a.pylist = True
+        o.fields[f] = a
+    o.fields.update(_iter_lrs={}, _snapshots=[])
     s.self = o
     return s
 
@@ -986,6 +994,34 @@ def rt_seeded_history(inp):
     after = run(c)
     if not np.array_equal(first, after):
         problems.append(f"seed={seed}: history after [non-reset run, reset] {after.tolist()} != fresh run {first.tolist()}")
+    # histories in which the generators were used although NO epoch has completed yet: a set-up call with zero iterations that
+    # draws the random validation split, and a first epoch interrupted inside its first mini-batch
+    d = _toy(seed)
+    d.val_ratio, d.val_mode = 0.25, "random"
+    d.reconstruct(num_iters=0, reset=False, optimizer_params=opt, batch_size=B, device="cpu")
+    d.val_ratio = 0.0
+    after = run(d)
+    if not np.array_equal(first, after):
+        problems.append(f"seed={seed}: history after [zero-iteration set-up call that drew a validation split, reset] {after.tolist()} != fresh run {first.tolist()}")
+    e = _toy(seed)
+    real_forward = e.dset.forward
+
+    class _Stop(Exception):
+        pass
+
+    def boom(*a, **k):
+        raise _Stop()
+
+    e.dset.forward = boom
+    try:
+        e.reconstruct(num_iters=1, reset=False, optimizer_params=opt, batch_size=B, device="cpu")
+    except _Stop:
+        pass
+    finally:
+        e.dset.forward = real_forward
+    after = run(e)
+    if not np.array_equal(first, after):
+        problems.append(f"seed={seed}: history after [first epoch interrupted in its first batch, reset] {after.tolist()} != fresh run {first.tolist()}")
     return dict(violated=bool(problems), observed="; ".join(problems) or "ok", expected="identical loss histories for the same seed / after reset")
 
 
@@ -1046,6 +1082,18 @@ def fam_epoch_visits(tier="quick", seed=0):
 
 C_ERR.rt, C_ERR.rt_family = rt_loss_invariance, fam_loss_invariance
 C_RECON.rt, C_RECON.rt_family = rt_seeded_history, fam_seeded_history
+
+
+def rt_reset_recon(inp):
+    """reset_recon: the RNG-level oracle, then whole reconstruction histories on the toy data set."""
+    r = rt_reset(inp)
+    if r["violated"] or inp.get("seed") is None:
+        return r
+    return rt_seeded_history(dict(seed=inp["seed"], batch_size=9))
+
+
+for _c in (C_RESETRECON, C_RESETRECON2):
+    _c.rt, _c.rt_family = rt_reset_recon, (lambda: iter([dict(seed=0), dict(seed=7)]))
 
 CONTRACTS = [C_SUBDIVIDE, C_GENERATE, C_ITER, C_LEN, C_ITERVAL, C_VALLEN, C_INIT, C_RNGSET, C_MSET, C_RESET, C_RESETRECON, C_RESETRECON2, C_ERR, C_RECON]
 
